@@ -415,10 +415,76 @@ class BundleAdd(AddBase):
         ("non-attr", lambda eng, st0, a: not self._is_attr(eng, st0, a))])
 
 
+class BundleAddMethod(AddBase):
+    """Bundle.add(val, name=None): exactly one name source, not one of the bundle's protected names; then the namespace
+    and the kind views hold the object under that name, the object is named and owned (as bundle._add)."""
+    key = "hdl21.bundle:Bundle.add"
+    props = ("C18",)
+    raises = (RuntimeError, TypeError)
+    kinds = BUN_KINDS
+    attrs = BUNDLE_ATTRS
+    parent = "_parent_bundle"
+    owner_classes = (Bundle,)
+    result_classes = BUNDLE_ATTRS
+
+    def scenarios(self, eng):
+        for has_name in (False, True):
+            def good(eng, st, has_name=has_name):
+                eng.field_classes.update({"namespace[]": BUNDLE_ATTRS})
+                m, val = self.mk(eng, st, BUNDLE_ATTRS)
+                return {"self": m, "val": val, "name": SStr(z3.String("name")) if has_name else None}
+            yield Scenario(f"attr,name={'str' if has_name else 'None'}", good)
+
+        def bad(eng, st):
+            m, val = self.mk(eng, st, (Module, Instance, Concat))
+            return {"self": m, "val": val, "name": SStr(z3.String("name"))}
+        s = Scenario("non-attr", bad)
+        s.expect_raise = True
+        yield s
+
+    def pre(self, eng, st, a):
+        return inv_ns(st, a.self.z, BUN_KINDS, BUNDLE_ATTRS, "_parent_bundle")
+
+    def _is_attr(self, eng, st0, a):
+        return all(issubclass(k, BUNDLE_ATTRS) for k in eng.classes_of(st0, a.val))
+
+    def _badnames(self, st0, a):
+        vnone = st0.heap.get("name$none", a.val.z)
+        return vnone if a.name is None else z3.Not(vnone)
+
+    def _frozen(self, st0, a):
+        return st0.heap.get("_elaborated", a.self.z)
+
+    def _reserved(self, st0, a):
+        from hdl21.bundle import _banned
+        name = st0.heap.get("name", a.val.z) if a.name is None else zstr(a.name)
+        return z3.And(z3.Not(self._badnames(st0, a)), z3.Or([name == z3.StringVal(b) for b in _banned]))
+
+    def p_view(self, eng, st0, st, a, res):
+        m, v = a.self.z, a.val.z
+        name = st0.heap.get("name", v) if a.name is None else zstr(a.name)
+        return z3.And(res.z == v, st.heap.get("namespace", m) == ns_after(st0, m, name, v),
+                      st.heap.get("name", v) == name, z3.Not(st.heap.get("name$none", v)),
+                      st.heap.get("_parent_bundle", v) == m)
+
+    posts = property(lambda self: [("view", self.p_view),
+                                   ("inv_ns", lambda eng, st0, st, a, res:
+                                    inv_ns(st, a.self.z, BUN_KINDS, BUNDLE_ATTRS, "_parent_bundle"))])
+    reasons = property(lambda self: {
+        RuntimeError: lambda eng, st0, a: z3.Or(self._badnames(st0, a), self._frozen(st0, a), self._reserved(st0, a)),
+        TypeError: lambda eng, st0, a: not self._is_attr(eng, st0, a)})
+    must_raise = property(lambda self: [
+        ("name-sources", lambda eng, st0, a: z3.And(self._is_attr(eng, st0, a), self._badnames(st0, a))),
+        ("reserved-name", lambda eng, st0, a: z3.And(self._is_attr(eng, st0, a), self._reserved(st0, a))),
+        ("elaborated", lambda eng, st0, a: self._frozen(st0, a)),
+        ("non-attr", lambda eng, st0, a: not self._is_attr(eng, st0, a))])
+
+
 CONTRACTS = [ModuleAdd(), AttrTypeError(), ModuleSetattr(), ModuleAddMethod(), ModuleGet(), ModuleGetattr(),
              AlwaysRaises("hdl21.module:Module.__delattr__", ("C18",), ("self", "__name")),
-             BundleAdd()]
-INLINE = {"hdl21.module:_assert_module_attr", "hdl21.module:_is_module_attr"}
+             BundleAdd(), BundleAddMethod()]
+INLINE = {"hdl21.module:_assert_module_attr", "hdl21.module:_is_module_attr", "hdl21.bundle:assert_bundle_attr",
+          "hdl21.bundle:is_bundle_attr"}
 VERIFY = [c for c in CONTRACTS if not isinstance(c, AttrTypeError)]
 # __setattr__/__getattr__ hooks are always entered (inlined) at attribute accesses, never replaced by their contract
 CALLEE_CONTRACTS = [c for c in CONTRACTS if not c.key.endswith(("__setattr__", "__getattr__"))]
@@ -476,3 +542,112 @@ def init_engine():
 
 
 VERIFY_INIT = [ModuleInit()]
+
+
+# ------------------------------------------------------------------------------------------------ @module / @bundle
+# "a class-style definition equals the equivalent procedural one": the decorators walk the class dictionary; for every
+# entry that is an HDL attribute the effect must be that of the assignment `obj.<key> = value` - the KEY names the value,
+# whatever name the value carried before.  The loop body is located in the AST of the current source and executed once
+# from an arbitrary state with a symbolic (public) key and a symbolic value.
+DECORATORS = [("hdl21.module:module", "module", (Module,), MODULE_ATTRS, "hdl21.module:_add", "module", MOD_KINDS,
+               "_parent_module"),
+              ("hdl21.bundle:bundle", "bundle", (Bundle,), BUNDLE_ATTRS, "hdl21.bundle:_add", "bundle", BUN_KINDS,
+               "_parent_bundle")]
+
+
+@guarded("list")
+def decorator_loop_obligations():
+    """-> [(function key, obligations, info)]"""
+    import ast as _ast
+    from pyvc import loader
+    from pyvc.engine import Frame
+    out = []
+    for key, local, owner_classes, attrs, add_key, add_arg, kinds, parent in DECORATORS:
+        ext = loader.extract(key)
+        info = {"sha": ext.sha, "lines": ext.lines, "path": ext.path, "paths": 0, "scenarios": 0, "unsupported": []}
+        obs = []
+        loops = [n for n in _ast.walk(ext.node) if isinstance(n, _ast.For) and "__dict__" in _ast.unparse(n.iter)]
+        if len(loops) != 1:
+            info["unsupported"].append(f"expected one loop over the class dictionary, found {len(loops)}")
+            out.append((key, obs, info))
+            continue
+        loop = loops[0]
+        tgt = [t.id for t in loop.target.elts] if isinstance(loop.target, _ast.Tuple) else None
+        if not tgt or len(tgt) != 2:
+            info["unsupported"].append("the loop over the class dictionary no longer unpacks (key, value)")
+            out.append((key, obs, info))
+            continue
+        for scen, val_classes in (("attribute", attrs), ("other-value", (Concat,))):
+            eng = engine()
+            st = eng.new_state()
+            eng.field_classes.update(FIELD_CLASSES)
+            if owner_classes == (Bundle,):
+                eng.field_classes.update({"namespace[]": BUNDLE_ATTRS})
+            m = sym_ref(st, "m", owner_classes)
+            st.assume(st.heap.get("_initialized", m.z))
+            val = sym_ref(st, "val", val_classes)
+            st.assume(st.heap.get("_initialized", val.z))
+            st.assume(val.z != m.z)
+            k = SStr(z3.String("key"))
+            st.assume(z3.Not(z3.PrefixOf(z3.StringVal("_"), k.z)))
+            st.assume(k.z != z3.StringVal("name"))
+            if owner_classes == (Bundle,):
+                st.assume(z3.And(k.z != z3.StringVal("roles"), k.z != z3.StringVal("Roles")))     # the role set, not a member
+                st.assume(z3.Not(st.heap.get("_elaborated", m.z)))
+                st.assume(inv_ns(st, m.z, BUN_KINDS, BUNDLE_ATTRS, "_parent_bundle"))
+            else:
+                st.assume(st.heap.get("Module._elaborated", m.z) == NULL)
+                st.assume(inv_ns(st, m.z))
+            st.locals = {}
+            for stmt in ext.node.body:          # plain literal locals set up before the loop (lists of names, empty dicts)
+                if stmt is loop:
+                    break
+                tgt_, value = (stmt.targets[0], stmt.value) if isinstance(stmt, _ast.Assign) and len(stmt.targets) == 1 else \
+                    (stmt.target, stmt.value) if isinstance(stmt, _ast.AnnAssign) else (None, None)
+                if isinstance(tgt_, _ast.Name) and value is not None:
+                    try:
+                        st.locals[tgt_.id] = _ast.literal_eval(value)
+                    except Exception:
+                        if isinstance(value, _ast.Call) and isinstance(value.func, _ast.Name) and not value.args and \
+                                value.func.id in ("list", "dict", "set"):
+                            st.locals[tgt_.id] = {"list": list, "dict": dict, "set": set}[value.func.id]()
+            st.locals.update({local: m, tgt[0]: k, tgt[1]: val, "cls": Opaque("the decorated class")})
+            st0 = st.fork()
+            eng.frames.append(Frame(ext, ext.key))
+            eng.cuts = []
+            try:
+                outs = eng.exec_block(loop.body, st)
+            except Unsupported as e:
+                info["unsupported"].append(f"{scen}: loop body: {e}")
+                continue
+            finally:
+                eng.frames.pop()
+            info["scenarios"] += 1
+            from hdl21.module import _banned as mb
+            from hdl21.bundle import _banned as bb
+            banned = z3.Or([k.z == z3.StringVal(b) for b in (bb if owner_classes == (Bundle,) else mb)])
+            for pi, (kind, s2, v) in enumerate(outs):
+                info["paths"] += 1
+                pname = f"{key}/class-body-entry/{scen}/p{pi}"
+                meta = {"trace": list(s2.trace), "havoc": list(s2.ghost.get("havoc", ()))}
+                for (oname, opc, goal) in s2.obligations:
+                    obs.append(Obligation(f"{pname}/{oname.split('/')[0]}/{oname.split('/')[1].split(':')[-1]}", "callsite",
+                                          opc, zbool(goal), key, scen, pi, meta))
+                if kind == "exc":
+                    # only a protected key may be refused (RuntimeError)
+                    ok = banned if getattr(v, "cls", None) is RuntimeError else z3.BoolVal(False)
+                    obs.append(Obligation(f"{pname}/raises.{getattr(getattr(v, 'cls', None), '__name__', 'Exception')}",
+                                          "raises", list(s2.pc), ok, key, scen, pi, meta))
+                    continue
+                if scen == "attribute":      # (another value under a protected key is simply not a member)
+                    obs.append(Obligation(f"{pname}/protected-key-refused", "post", list(s2.pc), z3.Not(banned), key, scen, pi, meta))
+                ns0, ns1 = st0.heap.get("namespace", m.z), s2.heap.get("namespace", m.z)
+                if scen == "attribute":
+                    goal = z3.And(z3.Select(ns1, k.z) == val.z, s2.heap.get("name", val.z) == k.z,
+                                  z3.Not(s2.heap.get("name$none", val.z)), s2.heap.get(parent, val.z) == m.z,
+                                  ns1 == ns_after(st0, m.z, k.z, val.z))
+                    obs.append(Obligation(f"{pname}/post.as-assignment", "post", list(s2.pc), goal, key, scen, pi, meta))
+                else:
+                    obs.append(Obligation(f"{pname}/post.forgotten", "post", list(s2.pc), ns1 == ns0, key, scen, pi, meta))
+        out.append((key, obs, info))
+    return out
